@@ -407,6 +407,59 @@ MILLER4 = [([1, 1, -2, 0], [0, 0, 0, 1]), ([2, -1, -1, 0], [0, 1, -1, 0]), ([1, 
 BURGERS4 = [[1 / 3, 1 / 3, -2 / 3, 0.0], [0.0, 0.0, 0.0, 1.0], [1 / 3, 1 / 3, -2 / 3, 1.0], [1 / 3, -2 / 3, 1 / 3, 0.0]]
 
 
+# every zero pattern x sign pattern of three indices (26): a plane (hkl) / a line [uvw] is drawn for a pattern, its partner
+# (a line in the plane: hu + kv + lw = 0) as the index cross product with a random integer vector
+SIGN_PATTERNS = [(a, b, c) for a in (1, 0, -1) for b in (1, 0, -1) for c in (1, 0, -1) if a or b or c]
+
+
+def _igcd3(v):
+    g = 0
+    for x in v:
+        g = math.gcd(g, abs(int(x)))
+    return g
+
+
+def gen_miller(rng, plane_pat=None, line_pat=None, reduce=True):
+    """(ξ_uvw, slip_hkl) with integer indices, hu + kv + lw = 0.  Either the plane or the line follows a prescribed pattern of
+    zero / positive / negative indices (magnitudes 1 .. 3, not necessarily coprime); the other one is the cross product of
+    the indices with a random integer vector (reduced to coprime indices)."""
+    def draw(pat):
+        return [sg * rng.choice([1, 1, 2, 3]) for sg in pat]
+
+    def partner(v):
+        for _ in range(50):
+            r = [rng.randint(-2, 2) for _ in range(3)]
+            w = [v[1] * r[2] - v[2] * r[1], v[2] * r[0] - v[0] * r[2], v[0] * r[1] - v[1] * r[0]]
+            if any(w) and max(abs(x) for x in w) <= 9:
+                g = _igcd3(w) if reduce else 1
+                return [x // g for x in w]
+        return [v[1], -v[0], 0] if (v[0] or v[1]) else [1, 0, 0]
+    if line_pat is not None:
+        u = draw(line_pat)
+        return u, partner(u)
+    h = draw(plane_pat or rng.choice(SIGN_PATTERNS))
+    return partner(h), h
+
+
+def gen_miller4(rng, pat=None):
+    """Miller-Bravais ([uvtw], (hkil)) for a hexagonal cell: (h, k, l) follows the pattern, i = -(h + k); the line [UVW] in the
+    plane is written with four indices u = (2U - V)/3 ... scaled to integers."""
+    h3 = [sg * rng.choice([1, 1, 2]) for sg in (pat or rng.choice(SIGN_PATTERNS))]
+    for _ in range(50):
+        r = [rng.randint(-2, 2) for _ in range(3)]
+        U = [h3[1] * r[2] - h3[2] * r[1], h3[2] * r[0] - h3[0] * r[2], h3[0] * r[1] - h3[1] * r[0]]
+        if any(U) and max(abs(x) for x in U) <= 6:
+            break
+    else:
+        U = [h3[1], -h3[0], 0] if (h3[0] or h3[1]) else [1, 0, 0]
+    # [UVW] -> [uvtw] = [(2U - V), (2V - U), -(U + V), 3W] (integers; the common factor 1/3 does not change the direction)
+    u4 = [2 * U[0] - U[1], 2 * U[1] - U[0], -(U[0] + U[1]), 3 * U[2]]
+    g = _igcd3(u4[:3] + [0]) if any(u4[:3]) else 0
+    g = math.gcd(g, abs(u4[3])) or 1
+    u4 = [x // g for x in u4]
+    return u4, [h3[0], h3[1], -(h3[0] + h3[1]), h3[2]]
+
+
 def v3(u):
     """[uvtw] -> [UVW] = [u - t, v - t, w] (3-index vectors unchanged)."""
     return [u[0] - u[2], u[1] - u[2], u[3]] if len(u) == 4 else list(u)
@@ -482,13 +535,13 @@ def gen_spec(rng, cls=None, route=None, mn=None, aniso=1.0, near_identity=False,
         spec['box'] = rng.choice([None, BOXES[1], BOXES[3], BOXES[5], rng.choice(BOXES[6:])])
     four = False
     if route == 'miller':
-        spec['xi_uvw'], spec['slip_hkl'] = rng.choice(MILLER)
+        spec['xi_uvw'], spec['slip_hkl'] = rng.choice(MILLER) if rng.random() < 0.5 else gen_miller(rng)
         # (the left-handed cell only where crystal VECTORS are converted: which way the normal of a plane (hkl) points in a
         #  left-handed cell — atomman: against h a* + k b* + l c* — is property C16's business)
         spec['box'] = BOXES[4] if four_index else rng.choice(BOXES[:-1])
         if spec['box'] is BOXES[4] and (four_index or rng.random() < 0.6):
             four = True
-            spec['xi_uvw'], spec['slip_hkl'] = rng.choice(MILLER4)
+            spec['xi_uvw'], spec['slip_hkl'] = rng.choice(MILLER4) if rng.random() < 0.5 else gen_miller4(rng)
     if spec['box'] is not None and rng.random() < 0.4:
         spec['origin'] = rng.choice([[5.0, -3.0, 2.0], [-1e3, 0.0, 0.5], [0.0, 0.0, -7.25]])
     bs = rng.choice([1.0, 2.5, 0.5])
@@ -858,6 +911,24 @@ def _orientation_case(ctx, spec, s):
         xi_axis = box.vector_crystal_to_cartesian(spec['xi_uvw'])
         xi_axis = xi_axis / np.linalg.norm(xi_axis)
         n_axis = box.plane_crystal_to_cartesian(spec['slip_hkl'])
+        # the model's own line u a + v b + w c and normal h b x c + k c x a + l a x b (exact): the implementation's unit vectors
+        # must be POSITIVE multiples of them (right-handed cells; in a left-handed cell the side is property C16's business)
+        V = np.array(spec['box'] if spec['box'] is not None else np.eye(3), dtype=float)
+        mo = ctx.driver.ask(f'miller {cm.frs(V)} {cm.frs(np.array(v3(spec["xi_uvw"]), dtype=float))} {cm.frs(np.array(p3(spec["slip_hkl"]), dtype=float))}')
+        ctx.stats.case('miller-normal', (str(spec['box']), tuple(spec['xi_uvw']), tuple(spec['slip_hkl'])),
+                       sample={'op': 'miller', 'xi_uvw': spec['xi_uvw'], 'slip_hkl': spec['slip_hkl'], 'box': spec['box']})
+        if mo.startswith('err:'):
+            ctx.disagree('miller:driver-error', f'model refused: {mo}', rep)
+        else:
+            mv = [float(x) for x in cm.unfrs(mo)]
+            righth = float(np.linalg.det(V)) > 0
+            for nm, mine, theirs, sg in (('line', mv[:3], xi_axis, 1.0), ('plane normal', mv[3:], n_axis, 1.0)):
+                u_ = np.array(mine) / float(np.linalg.norm(mine))
+                if nm == 'plane normal' and not righth and float(np.dot(u_, theirs)) < 0:
+                    sg = -1.0
+                if float(np.abs(sg * u_ - theirs).max()) > 1e-12:
+                    ctx.disagree('miller:' + nm.split()[-1], f'{nm} of ξ_uvw={spec["xi_uvw"]}, slip_hkl={spec["slip_hkl"]} in the cell {spec["box"]}: '
+                                 f'implementation {np.asarray(theirs).tolist()}, model (normalised) {(sg * u_).tolist()}', rep)
         out = ctx.driver.ask(f'ft {cm.frs(m)} {cm.frs(n)} {cm.frs(n_axis)} {cm.frs(xi_axis)}')
         ctx.stats.case('find_transform', (tuple(m), tuple(n), tuple(spec['xi_uvw']), tuple(spec['slip_hkl'])),
                        sample={'op': '__find_transform', 'xi_uvw': spec['xi_uvw'], 'slip_hkl': spec['slip_hkl'],
@@ -2666,15 +2737,34 @@ def _orientation_oracle(ctx, spec, s):
     np = _np()
     rep = {'op': 'orientation', 'spec': spec}
     T = s.transform
-    Tq = [[F(float(v)) for v in r] for r in T]
     ctx.stats.case('oracle:orientation', (str(spec['transform']), str(spec['xi_uvw']), str(spec['slip_hkl']), str(spec['box']),
                                           str(spec['m']), str(spec['n'])))
+    if not _transform_oracle(ctx, spec, T, rep):
+        return
+    m, n = mn_vectors(spec)
+    import atomman as am
+    if spec['route'] == 'miller':
+        box = _mkbox(spec)
+        T2 = am.defect.dislocation_system_transform(spec['xi_uvw'], spec['slip_hkl'], m=m, n=n, box=box)
+        if float(np.abs(np.asarray(T2) - T).max()) > 1e-13:
+            ctx.violate('orientation:utility', 'dislocation_system_transform gives a different matrix than the solver stores: '
+                        f'{np.asarray(T2).tolist()} vs {T.tolist()}', rep)
+    _orientation_rest(ctx, spec, s, rep)
+
+
+def _transform_oracle(ctx, spec, T, rep):
+    """T is a proper rotation; by Miller indices: it takes the reciprocal-lattice vector h a* + k b* + l c* (computed here
+    exactly from the cell) to a POSITIVE multiple of n and the lattice vector u a + v b + w c to a positive multiple of m x n;
+    by axes: its rows are the normalised axes.  False when T is not even a rotation."""
+    np = _np()
+    T = np.asarray(T, dtype=float)
+    Tq = [[F(float(v)) for v in r] for r in T]
     gram = [[sum(Tq[i][k] * Tq[j][k] for k in range(3)) for j in range(3)] for i in range(3)]
     det = (Tq[0][0] * (Tq[1][1] * Tq[2][2] - Tq[1][2] * Tq[2][1]) - Tq[0][1] * (Tq[1][0] * Tq[2][2] - Tq[1][2] * Tq[2][0])
            + Tq[0][2] * (Tq[1][0] * Tq[2][1] - Tq[1][1] * Tq[2][0]))
     if any(abs(gram[i][j] - (1 if i == j else 0)) > F(1, 10 ** 12) for i in range(3) for j in range(3)) or abs(det - 1) > F(1, 10 ** 12):
         ctx.violate('orientation:rotation', f'stored transform is not a proper rotation (det {float(det)}): {T.tolist()}', rep)
-        return
+        return False
     m, n = mn_vectors(spec)
     if spec['route'] == 'miller':
         V = [[F(float(v)) for v in r] for r in (spec['box'] or [[1, 0, 0], [0, 1, 0], [0, 0, 1]])]
@@ -2699,13 +2789,14 @@ def _orientation_oracle(ctx, spec, s):
             nr = math.sqrt(float(sum(v * v for v in row)))
             if any(abs(float(row[c]) / nr - T[i][c]) > 1e-12 for c in range(3)):
                 ctx.violate('orientation:axes', f'row {i} of the stored transform is not the normalised axis {ax[i].tolist()}', rep)
+    return True
+
+
+def _orientation_rest(ctx, spec, s, rep):
+    np = _np()
     import atomman as am
-    if spec['route'] == 'miller':
-        box = _mkbox(spec)
-        T2 = am.defect.dislocation_system_transform(spec['xi_uvw'], spec['slip_hkl'], m=m, n=n, box=box)
-        if float(np.abs(np.asarray(T2) - T).max()) > 1e-13:
-            ctx.violate('orientation:utility', 'dislocation_system_transform gives a different matrix than the solver stores: '
-                        f'{np.asarray(T2).tolist()} vs {T.tolist()}', rep)
+    T = s.transform
+    m, n = mn_vectors(spec)
     # character angle: cos(angle) |b| = b . ξ
     ang = s.characterangle()
     bq = s.burgers
@@ -2728,6 +2819,195 @@ def _orientation_oracle(ctx, spec, s):
         ctx.violate('orientation:burgers', f'Burgers vector in the solver frame {s.burgers.tolist()} is not transform . b = {wb.tolist()}', rep)
     if not (np.array_equal(s.m, m) and np.array_equal(s.n, n) and float(np.abs(s.ξ - np.cross(m, n)).max()) < 1e-15):
         ctx.violate('orientation:frame', 'stored m, n, ξ are not the requested axes', rep)
+
+
+def _miller_sweep(ctx, rng, reps):
+    """orientation by Miller indices for EVERY zero pattern x sign pattern of the plane indices and of the line indices (26
+    each), in cubic / orthorhombic / sheared / rotated / axis-permuted cells, 3- and 4-index forms, all choices of m, n:
+    the stand-alone utility and the solver must both return the rotation that takes the exact reciprocal-lattice normal to
+    +n and the lattice line to +m x n (sign included); the Burgers vector, given as a crystal vector, is rotated by it."""
+    np = _np()
+    import atomman as am
+    for rep_ in range(reps):
+        cases = [('plane', pat) for pat in SIGN_PATTERNS] + [('line', pat) for pat in SIGN_PATTERNS] \
+            + [('plane4', pat) for pat in SIGN_PATTERNS]
+        for n_, (what, pat) in enumerate(cases):
+            spec = gen_spec(rng, cls=rng.choice(['triclinic', 'monoclinic', 'orthorhombic']), route='miller',
+                            four_index=what == 'plane4', scales=(1.0, 1.0), tiny=False)
+            if what == 'plane4':
+                spec['xi_uvw'], spec['slip_hkl'] = gen_miller4(rng, pat)
+                spec['burgers'] = list(rng.choice(BURGERS4))
+            else:
+                spec['xi_uvw'], spec['slip_hkl'] = gen_miller(rng, plane_pat=pat) if what == 'plane' else gen_miller(rng, line_pat=pat)
+                if spec['box'] is BOXES[4] or spec['box'] == BOXES[4]:
+                    pass                    # three indices in the hexagonal cell are fine too
+                spec['burgers'] = rng.choice([[0.5, -0.5, 0.0], [0.5, 0.0, -0.5], [1.0, 0.0, 0.0], [0.5, 0.5, 0.5], [0.0, 0.0, 1.0],
+                                              [0.0, 0.5, 0.5], [-1.0, 2.0, 0.5]])
+            spec['bkind'] = 'crystal'
+            rep = {'op': 'orientation', 'solver': 'stroh', 'spec': spec}
+            ctx.stats.case('oracle:miller-pattern', (what, pat, str(spec['xi_uvw']), str(spec['slip_hkl']), str(spec['box']), str(spec['m']), str(spec['n'])),
+                           sample={'op': 'orientation by Miller indices', 'pattern': [what, list(pat)], 'xi_uvw': spec['xi_uvw'],
+                                   'slip_hkl': spec['slip_hkl'], 'box': spec['box']})
+            m, n = mn_vectors(spec)
+            try:
+                T2 = am.defect.dislocation_system_transform(spec['xi_uvw'], spec['slip_hkl'], m=m, n=n, box=_mkbox(spec))
+            except Exception as e:  # noqa
+                ctx.violate('orientation:utility-raises', f'dislocation_system_transform(ξ_uvw={spec["xi_uvw"]}, slip_hkl={spec["slip_hkl"]}) '
+                            f'raised {type(e).__name__}: {e}', rep)
+                continue
+            _transform_oracle(ctx, spec, T2, rep)
+            try:
+                s = build(spec, 'stroh')
+            except ValueError:
+                continue        # (an eigenvalue degeneracy of this medium in this orientation: outside the quantifier)
+            _orientation_oracle(ctx, spec, s)
+
+
+# ---- counts: arrays of N points -------------------------------------------------------------------------------
+# An implementation may treat long arrays in blocks.  Which block length nobody can guess; what can be covered:
+#   * N = 2^k - 1, 2^k, 2^k + 1 for every k up to 17 (and the smallest sizes 1, 2, 3),
+#   * N = j s (j = 1, 2, 3) for block lengths s = B // r that a memory budget B (64 KiB, 1 MiB) divided by the
+#     bytes / numbers one point needs would give (r: 3, 6, 9 ... 288 = vectors, 3x3 tensors, six eigen-terms, real or complex,
+#     4 / 8 / 16 bytes each),
+#   * a few random large N.
+# EVERY row is compared: the N points are drawn (with repetition, in random order) from a small base set, so the value of each
+# row is known from ONE evaluation of the base set (<= 1009 points); stress = C : strain on every row; first / last / middle
+# row against single-point calls.
+ROW_DIVISORS = [3, 6, 9, 12, 18, 24, 27, 36, 48, 72, 81, 96, 144, 162, 192, 288]
+BLOCK_BUDGETS = [2 ** 16, 2 ** 20]
+
+
+def block_lengths():
+    return sorted({B // r for B in BLOCK_BUDGETS for r in ROW_DIVISORS})
+
+
+def array_sizes(rng, cap, nrandom=3):
+    out = {1, 2, 3}
+    k = 1
+    while 2 ** k - 1 <= cap:
+        out |= {x for x in (2 ** k - 1, 2 ** k, 2 ** k + 1) if x <= cap}
+        k += 1
+    for s_ in block_lengths():
+        for j in (1, 2, 3):
+            if j * s_ <= cap:
+                out.add(j * s_)
+        if s_ + 1 <= cap:
+            out.add(s_ + 1)
+    for _ in range(nrandom):
+        out.add(rng.randint(10000, cap))
+    return sorted(out)
+
+
+def _sized_points(rng_np, s, N, ls, nbase=1009):
+    """(base points, index array, P = base[idx]): generic points off the line and off the cut, in the solver frame"""
+    np = _np()
+    q = min(N, nbase)
+    r = rng_np.uniform(0.5, 30.0, q) * ls
+    th = rng_np.uniform(-np.pi + 0.05, np.pi - 0.05, q)
+    z = rng_np.uniform(-5, 5, q) * ls
+    base = (r * np.cos(th))[:, None] * s.m + (r * np.sin(th))[:, None] * s.n + z[:, None] * s.ξ
+    idx = rng_np.integers(0, q, N)
+    idx[:q] = rng_np.permutation(q)          # every base point occurs
+    idx[-1] = rng_np.integers(0, q)
+    return base, idx, base[idx], r
+
+
+def _array_size_case(ctx, spec, kind, N, pseed):
+    np = _np()
+    rep = {'op': 'sizes', 'solver': kind, 'spec': spec, 'N': int(N), 'pseed': int(pseed)}
+    s = build(spec, kind)
+    ls = spec.get('lscale', 1.0)
+    g = np.random.default_rng(pseed)
+    base, idx, P, rb = _sized_points(g, s, N, ls)
+    P0 = P.copy()
+    ctx.stats.case('oracle:array-size', (kind, int(N), int(pseed), str(spec['cij'])), sample={'op': 'N points', 'solver': kind, 'N': int(N)})
+    bn = float(np.linalg.norm(s.burgers))
+    cmax = float(np.abs(s.C.Cijkl).max())
+    fields = {}
+    for f in FIELDS:
+        e, a = _call(lambda: getattr(s, f)(P))
+        e2, b_ = _call(lambda: getattr(s, f)(base))
+        if e != 'ok' or e2 != 'ok':
+            ctx.violate(f'{kind}:sizes-raises', f'{kind}: {f} of {N} points: {e if e != "ok" else e2}', rep)
+            return
+        shape = (N, 3) if f == 'displacement' else (N, 3, 3)
+        if N == 1 and a.shape == shape[1:]:
+            a = a.reshape(shape)            # (a (1, 3) array is answered like a single point)
+        if a.shape != shape:
+            ctx.violate(f'{kind}:sizes-shape', f'{kind}: {f} of an ({N}, 3) array has shape {a.shape}', rep)
+            return
+        if np.iscomplexobj(a) or not np.isfinite(a).all():
+            rows = np.flatnonzero((~np.isfinite(a) | (np.imag(a) != 0)).reshape(N, -1).any(axis=1))
+            ctx.violate(f'{kind}:sizes-complex', f'{kind}: {f} of {N} points off the cut is {a.dtype} / not finite: {len(rows)} rows with an '
+                        f'imaginary part or nan (first {int(rows[0]) if len(rows) else "-"}, last {int(rows[-1]) if len(rows) else "-"})', rep)
+            return
+        fields[f] = (a, b_.reshape((len(base),) + shape[1:]))
+    if not np.array_equal(P, P0):
+        ctx.violate(f'{kind}:input-modified', f'{kind}: evaluating the fields on {N} points changed the caller\'s array', rep)
+    # scales of one row: sum of the |terms| for Stroh, the closed-form magnitudes otherwise
+    es0 = bn / (2 * np.pi * rb)
+    us = bn * (np.abs(np.log(rb / ls)) + abs(math.log(ls)) + 4)
+    scale = {'displacement': us, 'strain': es0, 'stress': cmax * es0}
+    if hasattr(s, 'A'):
+        _e, su_, se_, ss_ = _field_scales(s, base)
+        scale = {'displacement': np.maximum(us, su_), 'strain': np.maximum(es0, se_), 'stress': np.maximum(cmax * es0, ss_)}
+    for f in FIELDS:
+        a, b_ = fields[f]
+        ref = b_[idx]
+        d = np.abs(a - ref).reshape(N, -1).max(axis=1)
+        bad = np.flatnonzero(~(d <= 1e-12 * scale[f][idx]))
+        if len(bad):
+            ctx.violate(f'{kind}:array-rows', f'{kind}: {f} of an array of {N} points: {len(bad)} rows (first {int(bad[0])}, last {int(bad[-1])}) '
+                        f'differ from the values of the same points evaluated in an array of {len(base)} (max difference '
+                        f'{float(np.nanmax(d[bad])) if np.isfinite(d[bad]).any() else float("nan"):.3e}, field scale {float(scale[f][idx][bad[0]]):.3e})', rep)
+            return
+    # stress = C : strain on every row
+    E, S = fields['strain'][0], fields['stress'][0]
+    C4 = s.C.Cijkl
+    hooke = np.einsum('ijkl,nkl->nij', C4, E)
+    mag = np.einsum('ijkl,nkl->nij', np.abs(C4), np.abs(E))
+    ss = np.maximum(np.abs(S).reshape(N, -1).max(axis=1), cmax * np.abs(E).reshape(N, -1).max(axis=1))
+    badm = ~(np.abs(S - hooke) <= 1e-11 * mag + 2.5 * spec['tol'] * ss[:, None, None])
+    bad = np.flatnonzero(badm.reshape(N, -1).any(axis=1))
+    if len(bad):
+        ctx.violate(f'{kind}:hooke', f'{kind}: stress != C:strain in {len(bad)} of {N} rows of one array (first {int(bad[0])}, last {int(bad[-1])})', rep)
+        return
+    # single-point calls: first, last, middle
+    for i in sorted({0, N - 1, N // 2}):
+        for f in FIELDS:
+            e, v = _call(lambda: getattr(s, f)(P[i].copy()))
+            if e != 'ok' or float(np.abs(np.asarray(v) - fields[f][0][i]).max()) > 1e-12 * float(scale[f][idx[i]]):
+                ctx.violate(f'{kind}:array', f'{kind}: {f} at row {i} of an array of {N} points differs from the single-point value ({e})', rep)
+                return
+
+
+def _array_sizes(ctx, rng):
+    """see the comment above: sizes around powers of two, multiples of plausible block lengths, random large N."""
+    np = _np()
+    cap = 2 ** 19 + 1 if ctx.thorough else 2 ** 17 + 1
+    sizes = array_sizes(rng, cap)
+    if not ctx.thorough:
+        # the quick tier affords all sizes up to 2^16 + 1 and the three around 2^17; thorough goes on to 2^19
+        sizes = [x for x in sizes if x <= 2 ** 16 + 1 or x in (2 ** 17 - 1, 2 ** 17, 2 ** 17 + 1)]
+    t0 = time.time()
+    rows = 0
+    spec = {}
+    for n_, N in enumerate(sizes):
+        kinds = ['stroh', 'iso'] if ctx.thorough or N <= 4097 else [['stroh', 'iso'][(n_ + ctx.seed) % 2]]
+        for kind in kinds:
+            if n_ % 8 == 0 or kind not in spec:
+                for _try in range(30):
+                    sp = gen_iso_spec(rng) if kind == 'iso' else gen_spec(rng, cls=rng.choice(['cubic', 'orthorhombic', 'monoclinic', 'triclinic']))
+                    if sp.get('lscale', 1.0) != 1.0 or sp.get('cscale', 1.0) != 1.0:
+                        continue            # (other units have their own sweep)
+                    if _outcome(sp, kind) == 'ok' and (kind == 'iso' or not _near_degenerate(build(sp, kind))):
+                        spec[kind] = sp
+                        break
+            if kind not in spec:
+                continue
+            _guarded(ctx, 'sizes', kind, spec[kind], lambda: _array_size_case(ctx, spec[kind], kind, N, rng.randrange(2 ** 31)))
+            rows += N
+    ctx.extra['array_sizes'] = {'sizes': len(sizes), 'largest': int(sizes[-1]), 'rows': int(rows), 't_s': round(time.time() - t0, 2)}
 
 
 def _build_checked(ctx, spec, kind):
@@ -2817,6 +3097,14 @@ def search(ctx, broken):
             _resolve_sequence(ctx, rng)
         except Exception as e:  # noqa
             ctx.violate('state:raises', f're-solve sequence: {type(e).__name__}: {e}', {'op': 'resolve'})
+    try:
+        _miller_sweep(ctx, rng, ctx.n(2, 12) * mult)
+    except Exception as e:  # noqa
+        ctx.violate('orientation:sweep-raises', f'Miller-index sweep: {type(e).__name__}: {e}', {'op': 'miller-sweep'})
+    try:
+        _array_sizes(ctx, rng)
+    except Exception as e:  # noqa
+        ctx.violate('sizes:raises', f'array-size sweep: {type(e).__name__}: {e}', {'op': 'sizes-sweep'})
     ctx.extra['t_search_s'] = round(time.time() - t0, 2)
 
 
@@ -2859,6 +3147,9 @@ def replay(ctx, payload):
             for eps in EPS_SWEEP:
                 _dispatch_case(ctx, r['sweep'], eps)
         print('replay dispatch sweep: violations now:', len(ctx.violations))
+    elif op == 'sizes' and 'spec' in r:
+        _guarded(ctx, 'sizes', r.get('solver', 'stroh'), r['spec'], lambda: _array_size_case(ctx, r['spec'], r.get('solver', 'stroh'), r['N'], r['pseed']))
+        print('replay array of', r['N'], 'points: violations now:', len(ctx.violations))
     elif op == 'resolve':
         for _ in range(40):
             _resolve_sequence(ctx, rng)
@@ -2908,6 +3199,10 @@ THEOREMS = [
     # entry point solve_volterra_dislocation; what the isotropic solver accepts (repo fix 9765d33)
     'C12.isoInPlaneOk_bound', 'C12.iso_accept_jump', 'C12.dispatch_iso_jump', 'C12.dispatch_stroh_first',
     'C12.dispatch_iso_iff', 'C12.dispatch_none_iff',
+    # orientation by Miller indices: reciprocal-lattice normal, zone law, the SIGN of the frame (Proofs/C12_Miller.lean)
+    'C12.miller_normal_dot_line', 'C12.miller_zone', 'C12.miller_normal_dot_edges', 'C12.miller_normal_neg',
+    'C12.miller_normal_side', 'C12.find_transform_normal', 'C12.find_transform_line', 'C12.find_transform_inplane',
+    'C12.find_transform_miller_sign',
 ]
 PARTIAL = {
     'object level': 'history_read / arg_edits_invisible / scale_edit_read are statements about the model World (the solved object '
@@ -2985,7 +3280,16 @@ RULE = ('correspondence: positive-definite stiffness of the 7 crystal classes (i
         'system); histories of 5-9 in-place edits of ONE coordinate array (shift, column, double, halve, row, overwrite, negate, '
         'temporaries) with reads in shuffled order; every constructor argument edited in place after solving, recycled for a '
         'second problem, every array-valued result scribbled over; the un-rotated crystal (no orientation / transform = 1 / '
-        'axes = 2*1) always among the aliasing and object-level (seq) cases')
+        'axes = 2*1) always among the aliasing and object-level (seq) cases. '
+        'round 3: Miller orientations are drawn half from the fixed list, half generated: the plane (or the line) follows one of '
+        'the 26 zero x sign patterns of three indices (magnitudes 1 .. 3, not necessarily coprime), its partner is the index '
+        'cross product with a random integer vector; the same with four indices in the hexagonal cell; a sweep runs every '
+        'pattern of the plane, of the line and of (hkil) through dislocation_system_transform and the solver on every run '
+        '(exact reciprocal-lattice normal, sign included). arrays of N points: N = 1, 2, 3, 2^k - 1, 2^k, 2^k + 1 (k <= 17 quick, '
+        '19 thorough), N = j s and s + 1 for j = 1, 2, 3 and s = 2^16 // r, 2^20 // r with r in {3, 6, 9, 12, 18, 24, 27, 36, 48, '
+        '72, 81, 96, 144, 162, 192, 288} (quick: up to 2^16 + 1), three random N; the points are drawn with repetition from <= 1009 '
+        'base points, so EVERY row is compared with a small-array evaluation, stress = C:strain on every row, first / middle / '
+        'last row against single-point calls; solvers alternate (thorough: both). Block lengths outside this list are not covered')
 ASSUMPTIONS = [
     'numpy.linalg.eig returns (p_a, (A_a, L_a)) with N v = p v up to the residual recomputed by the driver on every solved '
     'problem (bound 1e-13 x cond(V) x row scale); exact eigenvalue degeneracy is outside the property',
@@ -2996,7 +3300,9 @@ ASSUMPTIONS = [
     'vector norms likewise (sqrt residuals are recomputed)',
     'numpy einsum / dot compute the mathematical contraction up to round-off bounded by 1e-11 x the sum of |terms|',
     'Box.vector_crystal_to_cartesian / plane_crystal_to_cartesian (property C16) give the line direction and plane normal; '
-    'the search oracle recomputes the plane normal exactly from the reciprocal lattice',
+    'the search oracle recomputes the plane normal exactly from the reciprocal lattice, and since round 3 the model does too '
+    '(millerLine, millerNormal; driver op miller): in right-handed cells the implementation\'s unit vectors must be positive '
+    'multiples of the model\'s; to which side the normal points in a left-handed cell is left to C16',
     'ElasticConstants(Cij=...), .Cij, .Cijkl, bulk(), shear(), is_normal, normalized_as (property C11) are used as given; '
     'Cijkl and transform are modelled (cijkl, toVoigt, rotC) and compared; the value of C.is_normal(\'isotropic\', atol=0, '
     'rtol=1e-4) is an input of the model\'s dispatch / isoAccept (the search checks independently that an accepted isotropic '
@@ -3026,7 +3332,12 @@ MANIFEST = {
             'rescaled eigenvectors solve the rescaled eigenproblem, the solver\'s self-checks give the same verdict in every stiffness '
             'unit); object model (caller\'s argument objects, one coordinate array, solved object holding copies): after any history '
             'of in-place edits every read is the field of the problem as solved at the array\'s current contents; correspondence op '
-            'seq runs such histories on the real Stroh object and on the model.',
+            'seq runs such histories on the real Stroh object and on the model. Round 3: orientation by Miller indices inside '
+            'the model (line u a + v b + w c, plane normal h b x c + k c x a + l a x b): zone law with the volume factor, the '
+            'normal has the sign of each index along its cell edge in a right-handed cell, __find_transform takes the unit '
+            'normal to n, the unit line to m x n, their cross product to m, hence the frame is fixed by the SIGNS of the indices; '
+            'every zero x sign pattern of plane and line indices runs on every check; arrays of N points for N around every '
+            'power of two up to 2^17 (2^19 thorough) and at multiples of plausible block lengths, every row compared.',
     'note': 'Trusted: Lean kernel + propext/Classical.choice/Quot.sound; numpy.linalg.eig/inv, np.log, np.arctan (their values '
             'are inputs of the model and the residuals of what the theorems assume about them are recomputed exactly by the '
             'driver for every solved problem); the AST translator; float round-off bounded by 1e-11 x sum |terms| in the '
